@@ -156,6 +156,14 @@ impl TSut {
     pub fn iter<'a>(&'a self, kind: IterKind, hay: &'a [u8], q: &Search) -> Result<BoxIter<'a>, R> {
         match self {
             TSut::Packed(p) => Ok(Box::new(p.find_iter(hay).map(rm))),
+            // the infallible wrappers (find_iter / find_overlapping_iter) for every third
+            // plain input; they panic on unsupported configurations, which is a result too
+            TSut::A(Sut::Top(ac)) if hay.len() % 3 == 0 && q.span.is_none() && !q.anchored && !q.earliest && kind != IterKind::OverlappingSteps => {
+                match kind {
+                    IterKind::Find => Ok(Box::new(ac.find_iter(hay).map(rm))),
+                    _ => Ok(Box::new(ac.find_overlapping_iter(hay).map(rm))),
+                }
+            }
             TSut::A(Sut::Top(ac)) => match kind {
                 IterKind::Find => ac
                     .try_find_iter(input(hay, q))
@@ -196,6 +204,24 @@ impl TSut {
     }
 
     pub fn replace_all(&self, hay: &[u8], table: &[Vec<u8>]) -> R {
+        // The `str` entry points (try_replace_all) are separate wrappers: use them
+        // for every second UTF-8 haystack (a deterministic function of the input).
+        if hay.len() % 2 == 1 {
+            if let (Ok(h), Some(t)) = (
+                std::str::from_utf8(hay),
+                table.iter().map(|e| std::str::from_utf8(e).ok()).collect::<Option<Vec<&str>>>(),
+            ) {
+                let r = match self {
+                    TSut::Packed(_) => return R::Err("unsupported on packed".into()),
+                    TSut::A(Sut::Top(ac)) => ac.try_replace_all(h, &t).map_err(|e| e.to_string()),
+                    TSut::A(s) => on_aut!(s, a => a.try_replace_all(h, &t).map_err(|e| e.to_string())),
+                };
+                return match r {
+                    Ok(v) => R::Bytes(v.into_bytes()),
+                    Err(e) => R::Err(e),
+                };
+            }
+        }
         match self {
             TSut::Packed(_) => R::Err("unsupported on packed".into()),
             TSut::A(Sut::Top(ac)) => match ac.try_replace_all_bytes(hay, table) {
@@ -214,6 +240,27 @@ impl TSut {
         hay: &[u8],
         mut f: impl FnMut(&Match, &[u8], &mut Vec<u8>) -> bool,
     ) -> R {
+        if hay.len() % 2 == 1 {
+            if let Ok(h) = std::str::from_utf8(hay) {
+                // `str` variant: the closure's output is appended if it is UTF-8
+                let mut dst = String::new();
+                let mut g = |m: &Match, b: &str, d: &mut String| -> bool {
+                    let mut tmp = Vec::new();
+                    let keep = f(m, b.as_bytes(), &mut tmp);
+                    d.push_str(&String::from_utf8_lossy(&tmp));
+                    keep
+                };
+                let r = match self {
+                    TSut::Packed(_) => return R::Err("unsupported on packed".into()),
+                    TSut::A(Sut::Top(ac)) => ac.try_replace_all_with(h, &mut dst, |m, b, d| g(m, b, d)).map_err(|e| e.to_string()),
+                    TSut::A(s) => on_aut!(s, a => a.try_replace_all_with(h, &mut dst, |m, b, d| g(m, b, d)).map_err(|e| e.to_string())),
+                };
+                return match r {
+                    Ok(()) => R::Bytes(dst.into_bytes()),
+                    Err(e) => R::Err(e),
+                };
+            }
+        }
         let mut dst = Vec::new();
         let r = match self {
             TSut::Packed(_) => return R::Err("unsupported on packed".into()),
